@@ -595,6 +595,9 @@ pub struct HybridCompressor {
 }
 
 impl HybridCompressor {
+    /// Algorithm identifier stored when no component compressor shrinks the data (body = raw payload)
+    const RAW_ID: u8 = 0xFF;
+
     /// Create a new hybrid compressor that automatically selects the best algorithm
     ///
     /// The compressor will test multiple algorithms and choose the one with best compression
@@ -620,7 +623,7 @@ impl Compressor for HybridCompressor {
         }
 
         let mut best_result = data.to_vec();
-        let mut best_algorithm = 0u8;
+        let mut best_algorithm = Self::RAW_ID;
 
         // Try each compressor and pick the best result
         for (i, compressor) in self.compressors.iter().enumerate() {
@@ -643,8 +646,11 @@ impl Compressor for HybridCompressor {
             return Ok(Vec::new());
         }
 
-        let algorithm_id = data[0] as usize;
         let compressed_data = &data[1..];
+        if data[0] == Self::RAW_ID {
+            return Ok(compressed_data.to_vec());
+        }
+        let algorithm_id = data[0] as usize;
 
         if algorithm_id >= self.compressors.len() {
             return Err(ZiporaError::invalid_data(
